@@ -367,59 +367,80 @@ def docDecodeDepth (cfg : Cfg) (l : Loc) : Nat := call (decodeBodyDepth cfg l)
 def copySelfDepth (cfg : Cfg) (isDoc : Bool) (l : Loc) : Nat :=
   call (max (isXmlDepth cfg (kxOf l.node) l.anc) (call (if isDoc then cSoupInit else cTagInit)))
 
-/-! ### the editing primitives (element.py:586-632, 656-682, 1918-2026, 2153-2164) -/
+/-! ### the editing primitives (element.py:552-747, 1918-2164)
 
-/-- `Tag.index`: a loop of `is` tests over the parent's contents -/
-def indexDepth (sibs : List Node) : Nat := call (loop0 sibs)
+    Wherever the editing code tests whether two elements are THE SAME OBJECT (`child is element` in `index`,
+    `args[0] is self` / `x is self.parent` in `replace_with`, `x is self` in `insert_before`/`insert_after`,
+    `new_child is self` in `_insert`) the accounting charges `ts a b`, the cost of one such test: nothing for the
+    identity test the code uses (`idTest`), a call into `Tag.__eq__` if it were written with `==` (`eqTest`). -/
+
+/-- the cost of one "are these two elements the same?" test -/
+abbrev Test := Node → Node → Nat
+
+/-- `a is b` -/
+def idTest : Test := fun _ _ => 0
+
+/-- `a == b` on two different objects: `Tag.__eq__` (strings compare in C) -/
+def eqTest : Test := fun a b => eqDepth a b
+
+/-- `Tag.index`: a loop of tests over the parent's contents -/
+def indexDepth (ts : Test) (sibs : List Node) (target : Node) : Nat := call (loopMax sibs (fun s => ts s target))
 
 /-- `extract`: `parent.index(self)`, `_last_descendant()`, pointer writes -/
-def extractDepth (l : Loc) : Nat := call (max (indexDepth l.sibs) (lastDescDepth l.node))
+def extractDepth (ts : Test) (l : Loc) : Nat := call (max (indexDepth ts l.sibs l.node) (lastDescDepth l.node))
 
-/-- `_insert(position, new_child)` of one element that is not a BeautifulSoup object: `NavigableString(...)`,
-    `self.index`, `new_child.extract()`, `previous_child._last_descendant(False)`, `new_child._last_descendant(…)`,
-    and the `while parents_next_sibling is None and parent is not None` loop up the ancestors -/
-def insertOneDepth (l : Loc) (newChild : Loc) : Nat :=
-  call (max (call cStrNew) (max (indexDepth (kidsOf l.node)) (max (extractDepth newChild)
-    (max (loopMax (kidsOf l.node) lastDescDepth) (max (lastDescDepth newChild.node) (loop0 l.anc))))))
+/-- `_insert(position, new_child)` of one element that is not a BeautifulSoup object: `new_child is self`,
+    `NavigableString(...)`, `self.index(new_child)`, `new_child.extract()`, `previous_child._last_descendant(False)`,
+    `new_child._last_descendant(…)`, and the `while parents_next_sibling is None and parent is not None` loop up the
+    ancestors -/
+def insertOneDepth (ts : Test) (l : Loc) (newChild : Loc) : Nat :=
+  call (max (ts newChild.node l.node) (max (call cStrNew) (max (indexDepth ts (kidsOf l.node) newChild.node)
+    (max (extractDepth ts newChild)
+      (max (loopMax (kidsOf l.node) lastDescDepth) (max (lastDescDepth newChild.node) (loop0 l.anc)))))))
 
-/-- `insert(position, *new_children)`: a loop of `_insert` + `index`; a BeautifulSoup argument makes `_insert` call
-    `insert` once more with the document's children (which are not documents) -/
-def insertDepth (l : Loc) (args : List Loc) (argIsDoc : Bool) : Nat :=
-  let plain := call (max (loopMax args (insertOneDepth l)) (indexDepth (kidsOf l.node)))
+/-- `insert(position, *new_children)`: a loop of `_insert` + `index(just_inserted[-1])`; a BeautifulSoup argument makes
+    `_insert` call `insert` once more with the document's children (which are not documents) -/
+def insertDepth (ts : Test) (l : Loc) (args : List Loc) (argIsDoc : Bool) : Nat :=
+  let plain := call (loopMax args (fun a => max (insertOneDepth ts l a) (indexDepth ts (a.node :: kidsOf l.node) a.node)))
   if argIsDoc then call (call plain) else plain
 
-def appendDepth (l : Loc) (arg : Loc) (argIsDoc : Bool) : Nat := call (insertDepth l [arg] argIsDoc)
+def appendDepth (ts : Test) (l : Loc) (arg : Loc) (argIsDoc : Bool) : Nat := call (insertDepth ts l [arg] argIsDoc)
 
 /-- `extend`: list(...) then a loop of `append` -/
-def extendDepth (l : Loc) (args : List Loc) : Nat := call (loopMax args (fun a => appendDepth l a false))
+def extendDepth (ts : Test) (l : Loc) (args : List Loc) : Nat := call (loopMax args (fun a => appendDepth ts l a false))
 
-/-- `replace_with`: `parent.index`, `extract`, `old_parent.insert` -/
-def replaceWithDepth (parent l : Loc) (args : List Loc) : Nat :=
-  call (max (indexDepth l.sibs) (max (extractDepth l) (insertDepth parent args false)))
+/-- `replace_with`: `args[0] is self`, `any(x is self.parent for x in args)`, `parent.index`, `extract`,
+    `old_parent.insert` -/
+def replaceWithDepth (ts : Test) (parent l : Loc) (args : List Loc) : Nat :=
+  call (max (loopMax (args.take 1) (fun a => ts a.node l.node))
+    (max (loopMax args (fun a => ts a.node parent.node))
+      (max (indexDepth ts l.sibs l.node) (max (extractDepth ts l) (insertDepth ts parent args false)))))
 
 /-- `wrap`: `replace_with`, then `wrap_inside.append(me)` -/
-def wrapDepth (parent l wrapper : Loc) : Nat :=
-  call (max (replaceWithDepth parent l [wrapper]) (appendDepth wrapper l false))
+def wrapDepth (ts : Test) (parent l wrapper : Loc) : Nat :=
+  call (max (replaceWithDepth ts parent l [wrapper]) (appendDepth ts wrapper l false))
 
 /-- `unwrap`: `index`, `extract`, a loop of `insert` over the (reversed) children -/
-def unwrapDepth (parent l : Loc) : Nat :=
-  call (max (indexDepth l.sibs) (max (extractDepth l)
-    (loopMax (kidsOf l.node) (fun k => insertDepth parent [⟨parent.anc, [], k⟩] false))))
+def unwrapDepth (ts : Test) (parent l : Loc) : Nat :=
+  call (max (indexDepth ts l.sibs l.node) (max (extractDepth ts l)
+    (loopMax (kidsOf l.node) (fun k => insertDepth ts parent [⟨parent.anc, [], k⟩] false))))
 
-/-- `insert_before` / `insert_after`: per argument `extract`, `parent.index`, `parent.insert` -/
-def insertBesideDepth (parent l : Loc) (args : List Loc) : Nat :=
-  call (loopMax args (fun a => max (extractDepth a) (max (indexDepth l.sibs) (insertDepth parent [a] false))))
+/-- `insert_before` / `insert_after`: `any(x is self for x in args)`, then per argument `extract`, `parent.index`,
+    `parent.insert` -/
+def insertBesideDepth (ts : Test) (parent l : Loc) (args : List Loc) : Nat :=
+  call (max (loopMax args (fun a => ts a.node l.node))
+    (loopMax args (fun a => max (extractDepth ts a) (max (indexDepth ts l.sibs l.node) (insertDepth ts parent [a] false)))))
 
 /-- `decompose`: `extract`, then a pointer loop along `next_element` clearing every `__dict__` -/
-def decomposeDepth (l : Loc) : Nat := call (max (extractDepth l) (loop0 (selfAndDescs l)))
+def decomposeDepth (ts : Test) (l : Loc) : Nat := call (max (extractDepth ts l) (loop0 (selfAndDescs l)))
 
 /-- `clear(decompose)`: a loop over a copy of the children -/
-def clearDepth (l : Loc) (dec : Bool) : Nat :=
-  call (loopMax (kidLocs l) (fun k => if dec then decomposeDepth k else extractDepth k))
+def clearDepth (ts : Test) (l : Loc) (dec : Bool) : Nat :=
+  call (loopMax (kidLocs l) (fun k => if dec then decomposeDepth ts k else extractDepth ts k))
 
 /-- the `string` setter: `clear()`, then `append(new_class(string))` -/
-def stringSetDepth (l : Loc) : Nat :=
-  call (max (clearDepth l false) (max (call cStrNew) (appendDepth l ⟨[], [], .str 0⟩ false)))
+def stringSetDepth (ts : Test) (l : Loc) : Nat :=
+  call (max (clearDepth ts l false) (max (call cStrNew) (appendDepth ts l ⟨[], [], .str 0⟩ false)))
 
 /-! ### `Tag.__deepcopy__` / `__copy__` -/
 
@@ -430,7 +451,7 @@ def deepcopyPiece (cfg : Cfg) (d : Loc) : Nat :=
   max (match d.node with
        | .str _ => call cStrNew
        | .tag .. => call (copySelfDepth cfg false d))
-      (appendDepth ⟨[], [], .tag 0 0 true false []⟩ ⟨[], [], .str 0⟩ false)
+      (appendDepth idTest ⟨[], [], .tag 0 0 true false []⟩ ⟨[], [], .str 0⟩ false)
 
 def deepcopyDepth (cfg : Cfg) (isDoc : Bool) (l : Loc) : Nat :=
   call (max (copySelfDepth cfg isDoc l) (max (eventStreamContentsDepth cfg l) (loopMax (descs l.anc l.node) (deepcopyPiece cfg))))
@@ -486,6 +507,21 @@ def matchesTagDepth (cfg : Cfg) (q : Query) : Node → Nat
       call (max (call cRuleMatch) (max (stringDepth cfg (.tag n a kx v ks)) (call cRuleMatch)))
     else call (call cRuleMatch)
 
+/-- does `matches_tag` get as far as `_str = tag.string` for this element? (the conjunction of "no early exit was
+    taken" above — observable on the real code as a read of the `.string` property) -/
+def reachesString (q : Query) : Node → Bool
+  | .str _ => false
+  | .tag n a _ _ _ =>
+    !(q.name.isNone && !q.otherNameRule && q.attrs.isNone) &&
+    !(q.name.isSome && !q.otherNameRule && q.name != some n) &&
+    !(q.name.isSome && q.name != some n && !(q.otherNameRule && q.otherMatches)) &&
+    !(q.name.isNone && q.otherNameRule && !q.otherMatches) &&
+    !(q.attrs.isSome && q.attrs != some a) && q.str
+
+/-- the elements of a subtree (document order, identities as in `flatN`) whose `.string` a search reads -/
+def stringReads (q : Query) (t : Node) : List Nat :=
+  ((flatL 0 t 1 (kidsOf t)).filter (fun e => reachesString q e.node)).map (·.id)
+
 /-- `ElementFilter.match` on one element the generator yielded -/
 def matchDepth (cfg : Cfg) (q : Query) (t : Node) : Nat :=
   match t with
@@ -515,7 +551,7 @@ def findAxisDepth (cfg : Cfg) (q : Query) (vis : List Node) : Nat :=
     strings (no subtree below them) -/
 def smoothWork (l : Loc) : Nat :=
   let s : Loc := ⟨kxOf l.node :: l.anc, kidsOf l.node, .str 0⟩
-  max (extractDepth s) (max (call cStrNew) (replaceWithDepth l s [s]))
+  max (extractDepth idTest s) (max (call cStrNew) (replaceWithDepth idTest l s [s]))
 
 mutual
 /-- the recursive form: `if isinstance(a, Tag): a.smooth()` -/
